@@ -40,6 +40,7 @@ var c16Programs = [...]string{
 	"write(#\"" + strings.Repeat("x", 5000) + "\")",
 	"write(#[" + strings.Repeat("1000000000001, ", 300) + "1])",
 	"{\ns = \"" + strings.Repeat("y", 4090) + "\"\nwrite(#s)\n}",
+	"{\nwrite(1)\nwrite(#\"" + strings.Repeat("z", 70000) + "\")\nwrite(2)\n}",
 }
 
 func newVM() *vm.Type {
